@@ -1,11 +1,22 @@
-import RawPanelVerif.Lemmas.StripLemmas
+import RawPanelVerif.Lemmas.StripOneLine
 import RawPanelVerif.Lemmas.StripContent
 import RawPanelVerif.Spec.StripSpec
+import RawPanelVerif.Lemmas.TotalIn
+import RawPanelVerif.Lemmas.TotalOut
 /-!
 # C07 — Every produced ASCII string is exactly one line and flattening loses no content
 
 * `strip_no_lf`, `stripSvg_no_lf`, `singleLine_no_lf`  — the three flattening functions never output a line feed,
-  for every input string.
+  for every input string (stated and proved in Lemmas/StripOneLine.lean, same namespace `C07`: the encoder lemma files
+  import them).
+* `encoders_frame` — FULL-ENCODER theorem: for every list of inbound messages and every list of outbound messages (any
+  field contents whatsoever) no string returned by `encIn` / `encOut` (the models of the two public encoders) contains a
+  line feed, and the returned lists frame correctly (`Spec.Strip.framing`: each string + LF, split at LF, recovers
+  exactly the strings).
+* `topo_lines_content` — the two topology lines the outbound encoder returns for a message with a topology are
+  `_panelTopology_svgbase=` + the flattened SVG and `_panelTopology_HWC=` + the flattened JSON, each one line whose
+  white-space-free content equals that of the field (`Spec.Strip.checkPayload … = none`; JSON under the guard
+  `JoinSafe`, implied by valid UTF-8).
 * `strip_structure`, `stripSvg_structure` — for every input, the output is the concatenation, in order, of the
   LF-separated lines of the input, each with only a sequence of white-space runes removed at its two ends (and, for
   SVG, one space appended where the line does not end in `>`): nothing but white space and the line feeds is lost,
@@ -32,58 +43,6 @@ import RawPanelVerif.Spec.StripSpec
 -/
 namespace RawPanelVerif.C07
 open RawPanelVerif RawPanelVerif.Bytes RawPanelVerif.Strip
-
-theorem trimSpace_no_lf (p : Bytes) (h : (10 : UInt8) ∉ p) : (10 : UInt8) ∉ trimSpace p :=
-  fun hb => h (mem_of_mem_trimSpace p 10 hb)
-
-/-- `stripLineBreaks` never outputs a line feed. -/
-theorem strip_no_lf (s : Bytes) : (10 : UInt8) ∉ stripLineBreaks s := by
-  unfold stripLineBreaks
-  apply not_mem_flatten_map (α := Unit)
-  intro l hl
-  exact trimSpace_no_lf l (not_mem_of_mem_splitOn 10 s l hl)
-
-/-- `stripLineBreaksSvg` never outputs a line feed. -/
-theorem stripSvg_no_lf (s : Bytes) : (10 : UInt8) ∉ stripLineBreaksSvg s := by
-  unfold stripLineBreaksSvg
-  apply not_mem_flatten_map (α := Unit)
-  intro l hl
-  have h := trimSpace_no_lf l (not_mem_of_mem_splitOn 10 s l hl)
-  unfold svgPart
-  simp only []
-  split
-  · exact h
-  · intro hb
-    simp only [List.mem_append, List.mem_singleton] at hb
-    rcases hb with hb | hb
-    · exact h hb
-    · exact absurd hb (by decide)
-
-/-- the return-site flattening never outputs a line feed … -/
-theorem singleLine_no_lf (s : Bytes) : (10 : UInt8) ∉ singleLine s := by
-  unfold singleLine
-  intro h
-  simp only [List.mem_map] at h
-  obtain ⟨b, _, hb⟩ := h
-  split at hb
-  · exact absurd hb (by decide)
-  · rename_i hne; exact hne hb
-
-/-- … keeps the length, and changes a byte only if it is a line feed (into a space) -/
-theorem singleLine_only_lf (s : Bytes) :
-    (singleLine s).length = s.length ∧
-    ∀ i (h : i < s.length), (singleLine s)[i]'(by unfold singleLine; simpa using h) = (if s[i] = 10 then 32 else s[i]) := by
-  unfold singleLine
-  exact ⟨by simp, fun i h => by simp⟩
-
-theorem singleLine_id (s : Bytes) (h : (10 : UInt8) ∉ s) : singleLine s = s := by
-  unfold singleLine
-  induction s with
-  | nil => rfl
-  | cons b bs ih =>
-    have hb : b ≠ 10 := fun e => h (by simp [e])
-    have hbs : (10 : UInt8) ∉ bs := fun e => h (by simp [e])
-    simp [hb, ih hbs]
 
 /-- every line decomposes as white-space runes ++ trimmed core ++ white-space runes -/
 theorem lines_structure (ls : List Bytes) :
@@ -208,8 +167,6 @@ theorem stripSvg_payload (s : Bytes) : Spec.Strip.checkPayload s (stripLineBreak
   unfold Spec.Strip.checkPayload
   simp [oneLine_of_no_lf _ (stripSvg_no_lf s), stripSvg_content s]
 
-/-- `é NBSP ⏎ EM-SPACE x IDEOGRAPHIC-SPACE ⏎ SP €` -/
-def exUtf8 : Bytes := [0xC3, 0xA9, 0xC2, 0xA0, 0x0A, 0xE2, 0x80, 0x83, 0x78, 0xE3, 0x80, 0x80, 0x0A, 0x20, 0xE2, 0x82, 0xAC]
 
 /-- non-vacuity of `strip_content` / `strip_content_utf8`: valid UTF-8 with multi-byte white-space runes at the line
 edges, which the flattening really removes; and the guard also admits strings that are not valid UTF-8 -/
@@ -225,5 +182,65 @@ the repaired function keeps it. -/
 theorem svgPinned_loses_content_counterexample :
     stripLineBreaksSvgPinned (asc "<path d=\"M0 0\nL1 1\"/>") = asc " L1 1\"/>" ∧
     stripLineBreaksSvg (asc "<path d=\"M0 0\nL1 1\"/>") = asc "<path d=\"M0 0 L1 1\"/>" := by decide
+
+
+/-! ## the full encoders -/
+
+/-- **Every string either encoder returns is one line, and the returned lists frame correctly** — for every list of
+messages, whatever their string fields contain (`encIn` / `encOut` = the models of
+`InboundMessagesToRawPanelASCIIstrings` / `OutboundMessagesToRawPanelASCIIstrings`, tied by the correspondence) -/
+theorem encoders_frame (O : MsgIn.Oracles) (ms : List MsgIn.InMsg) (o : MsgOut.OutOracle) (ms' : List MsgOut.OutMsg) :
+    (∀ l ∈ Model.In.encIn O ms, (10 : UInt8) ∉ l) ∧ Spec.Strip.framing (Model.In.encIn O ms) = true ∧
+    (∀ l ∈ EncOut.encOut o ms', (10 : UInt8) ∉ l) ∧ Spec.Strip.framing (EncOut.encOut o ms') = true :=
+  ⟨TotalIn.encIn_no_lf O ms, framing _ (TotalIn.encIn_no_lf O ms), TotalOut.encOut_no_lf o ms',
+   framing _ (TotalOut.encOut_no_lf o ms')⟩
+
+/-- non-vacuity: line feeds in a title, a register id and a message text -/
+example : Model.In.encIn default [{ states := [{ ids := [1], text := some { title := asc "a\nb", formatting := 1 } }],
+                                    registers := [{ reg := 0, id := asc "A\n1", value := 3 }] }] =
+      [asc "HWCt#1=0|1||a b|1", asc "MemA 1=3"] ∧
+    EncOut.encOut ⟨fun _ t => t, fun t => t, fun _ => [], fun _ => none⟩ [{ message := some (asc " x\n  y z\n"), panelInfo := some { model := asc "M\n1" } }] =
+      [asc "_model=M 1", asc "Msg=xy z"] := by decide
+
+/-- **The topology lines carry content-equal payloads**: for a message with topology `t`, the encoder returns (among its
+strings) the line `_panelTopology_svgbase=` ++ `stripLineBreaksSvg t.svgbase` and the line `_panelTopology_HWC=` ++
+`stripLineBreaks t.json`; both payload images pass the Spec's payload check against the field (one line, same
+white-space-free content, same order) — the SVG for every byte string, the JSON under `JoinSafe` (⇐ valid UTF-8). -/
+theorem topo_lines_content (o : MsgOut.OutOracle) (m : MsgOut.OutMsg) (t : MsgOut.Topology) (ht : m.topology = some t) :
+    EncOut.kSvgbase ++ stripLineBreaksSvg t.svgbase ∈ EncOut.encOut o [m] ∧
+    EncOut.kTopoHWC ++ stripLineBreaks t.json ∈ EncOut.encOut o [m] ∧
+    Spec.Strip.checkPayload t.svgbase (stripLineBreaksSvg t.svgbase) = none ∧
+    (JoinSafe t.json → Spec.Strip.checkPayload t.json (stripLineBreaks t.json) = none) := by
+  have hk1 : (10 : UInt8) ∉ EncOut.kSvgbase := by decide
+  have hk2 : (10 : UInt8) ∉ EncOut.kTopoHWC := by decide
+  have h1 : singleLine (EncOut.kSvgbase ++ stripLineBreaksSvg t.svgbase) = EncOut.kSvgbase ++ stripLineBreaksSvg t.svgbase :=
+    singleLine_id _ (by
+      intro h; simp only [List.mem_append] at h
+      rcases h with h | h
+      · exact hk1 h
+      · exact stripSvg_no_lf _ h)
+  have h2 : singleLine (EncOut.kTopoHWC ++ stripLineBreaks t.json) = EncOut.kTopoHWC ++ stripLineBreaks t.json :=
+    singleLine_id _ (by
+      intro h; simp only [List.mem_append] at h
+      rcases h with h | h
+      · exact hk2 h
+      · exact strip_no_lf _ h)
+  refine ⟨?_, ?_, stripSvg_payload _, fun hj => strip_payload _ hj⟩
+  · unfold EncOut.encOut
+    simp only [List.flatMap_cons, List.flatMap_nil, List.append_nil, List.mem_map]
+    refine ⟨_, ?_, h1⟩
+    unfold EncOut.encMsgRaw
+    rw [ht]
+    simp [EncOut.optLines, EncOut.topologyLines]
+  · unfold EncOut.encOut
+    simp only [List.flatMap_cons, List.flatMap_nil, List.append_nil, List.mem_map]
+    refine ⟨_, ?_, h2⟩
+    unfold EncOut.encMsgRaw
+    rw [ht]
+    simp [EncOut.optLines, EncOut.topologyLines]
+
+example : EncOut.encOut ⟨fun _ t => t, fun t => t, fun _ => [], fun _ => none⟩
+      [{ topology := some { svgbase := asc "<svg>\n <path d=\"M0 0\n L1 1\"/>\n</svg>", json := asc "{\n \"a\": [1,\n 2]\n}" } }] =
+    [asc "_panelTopology_svgbase=<svg><path d=\"M0 0 L1 1\"/></svg>", asc "_panelTopology_HWC={\"a\": [1,2]}"] := by decide
 
 end RawPanelVerif.C07
